@@ -161,7 +161,9 @@ def mk_spec(name, steps):
         k = int(name[-1]) + 1
         if k == len(parts):
             return Path(Path(*parts[:1]), Path(*parts[1:]))
-        return Path(Path(*parts[:k]), *parts[k:])
+        base = Path(*parts[:k])
+        Path(base, 'decoy', 0)          # the prefix is kept and joined more than once: every join is a new Path
+        return Path(base, *parts[k:])
     return Path(*parts)
 
 
